@@ -92,7 +92,10 @@ def run(ck, F, E):
     fb = get_fn(ck, F, "ProgramLines::first")
     if fb is not None:
         names = [c.callee for c in fb.calls()]
-        ck.require(any(n.endswith("BTreeSet::first") for n in names) and not any(n.endswith("::last") for n in names),
+        asc_first = any(n.endswith("BTreeSet::first") for n in names) or \
+            (any(n.endswith("BTreeSet::iter") for n in names) and any(n.endswith("Iterator>::next") or n.endswith("::next") for n in names)
+             and not any(n.split("::")[-1] in ("rev", "next_back", "last", "max", "nth", "skip") for n in names))
+        ck.require(asc_first and not any(n.endswith("::last") for n in names),
                    "C04:FIRST:minimum", "ordered consumers", "first() is BTreeSet::first()",
                    "first() is no longer the minimum of the sorted set: %s" % names, fb.span)
 
